@@ -16,3 +16,41 @@ int __wrap_poll(struct pollfd *fds, nfds_t nfds, int timeout)
 		timeout = 0;
 	return __real_poll(fds, nfds, timeout);
 }
+
+/* queue_init() looks once, right behind fork(), whether the child is already gone: waitpid(qpid, NULL, WNOHANG).  Whether it
+ * sees a child that dies at once (exec of $QMAILQUEUE failed: _exit(120); a queue program that exits immediately) is a race
+ * between the two processes.  The harness FORCES one of the two legal schedules, per invocation, from the same plan file the
+ * qmail-queue stand-in reads (line k for the k-th call):
+ *   ns  "seen":   the call waits until the child has exited (waitid with WNOWAIT: it stays waitable) and then asks for real
+ *   nh  "missed": the call waits until the child has exited and answers 0 without asking: queue_init() goes on, the child is
+ *                 certainly dead when the Received: header is written
+ * every other plan entry: the real call. */
+#include <sys/wait.h>
+#include <stdio.h>
+#include <stdlib.h>
+#include <string.h>
+pid_t __real_waitpid(pid_t pid, int *status, int options);
+pid_t __wrap_waitpid(pid_t pid, int *status, int options)
+{
+	static int calls;
+	if (options & WNOHANG) {
+		const char *plan = getenv("QQ_PLAN");
+		char line[64] = "";
+		int k = calls++;
+		if (plan) {
+			FILE *f = fopen(plan, "r");
+			if (f) {
+				for (int i = 0; i <= k; i++)
+					if (!fgets(line, sizeof(line), f)) { line[0] = 0; break; }
+				fclose(f);
+			}
+		}
+		if (!strncmp(line, "ns", 2) || !strncmp(line, "nh", 2)) {
+			siginfo_t info;
+			waitid(P_PID, pid, &info, WEXITED | WNOWAIT);
+			if (line[1] == 'h')
+				return 0;
+		}
+	}
+	return __real_waitpid(pid, status, options);
+}
